@@ -1,4 +1,20 @@
-"""C24 Query update statements change exactly the selected rows (dbms/query/action.go)"""
+"""C24 Query update statements change exactly the selected rows (dbms/query/action.go)
+
+Mutation testing (scratch worktree, VERIF_REPO=<dir>, quick tier, seed 1; green = package tests pass):
+  update-seq-eval           action.go update: later set expressions see the values already assigned
+                            (`set b = a * 2, c = b`)                                      green -> VIOLATION
+  update-count-changed-only action.go update: rows whose record does not change are not counted
+                                                                                         green -> VIOLATION
+  insertq-by-position       action.go insert query: source columns taken by position, not by name
+                                                                                         green -> VIOLATION
+  update-own-writes         action.go update iterates its query while writing (the original defect,
+                            fixed by `fix: update and insert-query statements read all their rows ...`)
+                                                                                         -> VIOLATION
+  delete-skips-first        action.go delete skips the first row              tests red  -> VIOLATION
+  delete-stops-at-dup       action.go delete: break instead of continue on a repeated record offset
+                            green, NOT caught: equivalent here (a query never returns the same record
+                            twice in a row in these runs)
+"""
 import relcommon
 
 META = {
